@@ -84,6 +84,18 @@ IntegralFrom(es, sig, i, a, b, perTime) ==
        IN RAdd(w, IntegralFrom(es, sig, i + 1, a, b, perTime))
 Integral(es, sig, a, b, perTime) == IntegralFrom(es, sig, 1, RInt(a), RInt(b), perTime)
 
+(* payload "hole": the second cell is missing (masked) in the publications with index 2 modulo 3.  A result  *)
+(* is owed for that cell whenever none of the publications that contribute to it misses the cell: the ones   *)
+(* from the last publication at or before the start of the period (interpolation: the request time) to the   *)
+(* first one at or after the request time                                                                     *)
+HoleIdx(i) == i % 3 = 2
+NoHole(es, from, to) ==
+  LET Lo == {es[i].t : i \in {j \in 1..Len(es) : es[j].t <= from}}
+      Hi == {es[i].t : i \in {j \in 1..Len(es) : es[j].t >= to}}
+      lo == IF Lo = {} THEN from ELSE SetMax(Lo)
+      hi == IF Hi = {} THEN to ELSE SetMin(Hi)
+  IN \A i \in 1..Len(es) : (es[i].t >= lo /\ es[i].t <= hi) => ~HoleIdx(i)
+
 (* physical length of one tick in seconds (cfg.tick = <<num, den>>, chosen by the harness; one day if absent): *)
 (* only per-time sums of data in m/s depend on it                                                             *)
 TickSeconds(cfg) == IF "tick" \in DOMAIN cfg THEN RNorm(cfg.tick[1], cfg.tick[2]) ELSE RInt(86400)
